@@ -15,6 +15,7 @@ import (
 	"sync"
 
 	"github.com/nspcc-dev/neo-go/pkg/compiler"
+	"github.com/nspcc-dev/neo-go/pkg/config"
 	"github.com/nspcc-dev/neo-go/pkg/core/interop"
 	"github.com/nspcc-dev/neo-go/pkg/core/native/nativehashes"
 	"github.com/nspcc-dev/neo-go/pkg/core/native/nativeids"
@@ -79,19 +80,42 @@ func compileV() (*neotest.Contract, error) {
 
 type world struct {
 	multi             bool
+	hf                bool     // family single-hf-all: every hardfork active from genesis (escape_test.go)
 	blocks            [][]byte // wire bytes of preamble + setup blocks
 	cw                *chainx.World
 	hashes            [nPrinc]util.Uint160
 	ids               [3]int32
 	ud                util.Uint160 // hash of the fourth instance (deployable by account 1)
 	wtok              util.Uint160 // the token conduit W (wtoken_test.go)
+	w2                util.Uint160 // hf only: the token conduit W2 (escape_world_test.go)
 	udNEF, udManifest []byte
 	height            uint32 // height of the prepared chain
 }
 
 // buildWorld creates the prepared chain once; replicas replay its blocks.
-func buildWorld(multi bool, pad int) (*world, error) {
-	n, err := chainx.New(chainx.Opts{Multi: multi})
+func buildWorld(multi bool, pad int) (*world, error) { return buildWorldHF(multi, pad, false) }
+
+// allHardforks: the protocol options of the family single-hf-all.
+func allHardforks(c *config.Blockchain) {
+	c.Hardforks = map[string]uint32{}
+	for _, h := range config.Hardforks {
+		c.Hardforks[h.String()] = 0
+	}
+}
+
+func (w *world) opts() chainx.Opts {
+	o := chainx.Opts{Multi: w.multi}
+	if w.hf {
+		o.Proto = allHardforks
+	}
+	return o
+}
+
+// buildWorldHF: hf = every hardfork active from genesis; the third instance is then
+// compiled from x.go.txt (V + the operations of the escape family).
+func buildWorldHF(multi bool, pad int, hf bool) (*world, error) {
+	w := &world{multi: multi, hf: hf}
+	n, err := chainx.New(w.opts())
 	if err != nil {
 		return nil, err
 	}
@@ -100,9 +124,14 @@ func buildWorld(multi bool, pad int) (*world, error) {
 	if err != nil {
 		return nil, err
 	}
-	w := &world{multi: multi, cw: cw}
+	w.cw = cw
 	// setup block 1: the third instance (the extended universal contract: U + iterator op)
-	if cw.UC, err = compileV(); err != nil {
+	if hf {
+		cw.UC, err = compileX()
+	} else {
+		cw.UC, err = compileV()
+	}
+	if err != nil {
 		return nil, err
 	}
 	dep, err := n.DeployTx(cw.UC, chainx.Signer(2), nil)
@@ -119,8 +148,27 @@ func buildWorld(multi bool, pad int) (*world, error) {
 	if err != nil {
 		return nil, err
 	}
-	if _, err := n.AddBlock(dep, depW); err != nil {
+	setup1 := []*transaction.Transaction{dep, depW}
+	if hf {
+		w2c, err := buildW2(chainx.Acc(2).ScriptHash(), cw.UB.Hash, cw.UC.Hash)
+		if err != nil {
+			return nil, err
+		}
+		w.w2 = w2c.Hash
+		cw.MaxID++
+		depW2, err := n.DeployTx(w2c, chainx.Signer(2), nil)
+		if err != nil {
+			return nil, err
+		}
+		setup1 = append(setup1, depW2)
+	}
+	if _, err := n.AddBlock(setup1...); err != nil {
 		return nil, fmt.Errorf("deploy UC, W: %w", err)
+	}
+	for _, tx := range setup1 {
+		if err := n.CheckHalt(tx.Hash()); err != nil {
+			return nil, err
+		}
 	}
 	if err := n.CheckHalt(depW.Hash()); err != nil {
 		return nil, err
@@ -208,7 +256,7 @@ type rig struct {
 }
 
 func (w *world) newRig() (*rig, error) {
-	n, err := chainx.New(chainx.Opts{Multi: w.multi})
+	n, err := chainx.New(w.opts())
 	if err != nil {
 		return nil, err
 	}
